@@ -433,6 +433,11 @@ def run_case(rec, case):
                        else 0.0, request_timeout=5, plain_handlers=plain,
                        legacy_disconnect=legacy)
 
+    if case.get('boomdis'):
+        # the application's disconnect handler raises (after it ran)
+        w.cli.raising_disconnect = True
+        case['_handlers']['disconnect_handler_raises'] = True
+        rec.count('raising_disconnect_handlers')
     state = {'cyc': 0}
 
     def V(key, msg):
@@ -565,6 +570,8 @@ def plan(tier, seed):
                     list(rng.choice(cells)) for _ in range(3)]})
     for c in cases[::3]:
         c['rereg'] = True
+    for c in cases[1::4]:
+        c['boomdis'] = True
     rng.shuffle(cases)
     n = 16
     shards = [{'cases': cases[i::n]} for i in range(n)]
